@@ -659,13 +659,12 @@ def run_job_uncached(job, tier='quick', log=print):
         verdicts[s] = (p, r['secs'])
     def counts(pr):
         # does a failure of this CBMC property count for the property being checked (VP_PID)?  unnamed obligations count for all
-        from recipes import COMPOSED_OF
+        from recipes import composed
         pid = os.environ.get('VP_PID')
         name, _k = classify(pr, meta['names'])
         if not pid or not name or not re.match(r'^C\d\d', name):
             return True
-        pre = name.split('.')[0]
-        return pre == pid or pre in COMPOSED_OF.get(pid, ())
+        return composed(pid, name)
     sof_counts = True
     if not verdicts and sof is not None:
         # a failure that belongs to another property only (shared job) must not end the job: fall through to split mode
